@@ -1,14 +1,18 @@
-import SiaModel.Driver.Cur
+import SiaModel.Driver.All
 /-!
   Model driver: one op per input line, one canonical answer per output line.
-  Core-only (no Mathlib) so that it links as a native executable.
+  Core-only (no Mathlib) so that it links as a native executable. The op table
+  `Sia.Driver.allOps` is assembled from the handler files in SiaModel/Driver/.
 -/
 open Sia.Driver
 
 def dispatch (line : String) : String :=
   match (line.splitOn " ").filter (· ≠ "") with
-  | "cur" :: rest => curOp rest
-  | _ => "bad-op"
+  | op :: rest =>
+    match allOps.lookup op with
+    | some f => f rest
+    | none => "bad-op"
+  | [] => "bad-op"
 
 partial def loop (hin hout : IO.FS.Stream) : IO Unit := do
   let line ← hin.getLine
